@@ -186,6 +186,33 @@ pub fn run(runner: &mut Runner, data_dir: &str, shapes: Option<&str>, seed: u64,
             }
         }
     }
+    // ring occupancies: every wire, every wire but one, a block across the 255/0 seam, two half rings,
+    // every other wire - with a small pulse on each wire so that the deconvolution has work to do
+    {
+        let pulse = |w: usize| -> Vec<i16> {
+            let mut v = wire_wave(w, 160);
+            for k in 0..12 {
+                v[110 + (w % 7) + k] -= (60 - 4 * k as i16).max(0);
+            }
+            v
+        };
+        let occupancies: Vec<(&str, Vec<usize>)> = vec![
+            ("ring-full", (0..256).collect()),
+            ("ring-but-one", (0..256).filter(|&w| w != 200).collect()),
+            ("ring-but-zero", (1..256).collect()),
+            ("ring-but-last", (0..255).collect()),
+            ("ring-seam", (250..256).chain(0..6).collect()),
+            ("ring-halves", (0..100).chain(128..230).collect()),
+            ("ring-alternate", (0..256).step_by(2).collect()),
+            ("ring-single-255", vec![255]),
+            ("ring-single-0", vec![0]),
+        ];
+        for (kind, wires) in occupancies {
+            let mut banks: Vec<BankB> = wires.iter().map(|&w| wire_bank(&maps, w, pulse(w))).collect();
+            banks.push(trg_bank_b(4321));
+            emit(runner, SIM, kind, format!("o{}", wires.len()), banks, false);
+        }
+    }
     // random names and bytes
     let names: Vec<String> = {
         let mut v: Vec<String> = vec!["ATAT", "TRBA", "MCVX", "SEQ2", "CBF1", "C09A", "C18V", "B09F", "PC12", "PC00", "", "A", "ATATA", "c09a", "C09W", "PCAB", "C\u{e9}9", "\u{1F600}", "PC\u{661}\u{662}"]
